@@ -19,6 +19,14 @@ graph (place-level liveness across blocks) is decided by the bounded layer.
      place.  A borrowed parameter cannot be re-assigned.
  L5  _reassign_single_inout_arg: after a borrowing call every leaf of the lent place is assigned
      again (usable, and a later use is not a second use).
+ L6  check_cfg_linearity, the rules that connect blocks (real code; scopes built with the real Scope
+     API; the liveness result of C09 handed in): for a block whose outgoing value of x has a type
+     with SYMBOLIC copyable/droppable flags, (E1) AlreadyUsedError iff the value was consumed in the
+     block, is not copyable and is live into some successor; (E2) PlaceNotUsedError iff the value is
+     alive in the block (live on entry or bound there), not droppable, not consumed there and not
+     live into every successor; otherwise the block's signature lists exactly the live places.  All
+     combinations of: one/two successors, live into which, bound outside / here / rebound to
+     another type, used before / after the binding, in scope without being live.
  B   BOUNDED (contracts/C06_oracle.py): the real check() on programs of the core fragment
      (assignments, owned and borrowed calls, if/while, break/continue/return, tuples, struct
      fields) — a systematic single-fault family plus randomly generated valid programs and random
@@ -37,21 +45,23 @@ TITLE = "local linearity rules (scope bookkeeping, leaves, use-once, no overwrit
 LC = "guppylang_internals.checker.linearity_checker"
 CORE = "guppylang_internals.checker.core"
 TYM = "guppylang_internals.tys.ty"
+CHKM = "guppylang_internals.checker.cfg_checker"
 NCH = 16
 
 
 def run(chk):
     chk.section("scope", lambda: l1(chk))
     chk.section("places", lambda: l345(chk))
+    chk.section("cross-block", lambda: l6(chk))
     for i in range(NCH):
         chk.section(f"bounded-{i}", lambda i=i: bounded(chk, i))
     chk.expected_min_obligations = 40
     chk.assumptions += [
         "types are records with symbolic copyable/droppable flags (their computation is C14); struct and tuple types are the real classes with such leaves",
         "diagnostic classes are replaced by records naming the error kind; get_type / ENGINE lookups are not needed by the functions under contract",
-        "the composition of the local rules over the CFG (check_cfg_linearity's use of the liveness analysis, C09) is decided by the bounded layer only",
+        "L6 takes the place-level liveness result as given (its fixpoint property is C09) and BBLinearityChecker.check's per-block scopes as built with the real Scope API; that the per-block rules add up to the path statement is decided by the bounded layer",
     ]
-    chk.not_covered += ["subscripted places (array elements), comprehensions, nested functions and modifier blocks in the linearity checker", "check_cfg_linearity's cross-block rules as a contract"]
+    chk.not_covered += ["subscripted places (array elements), comprehensions, nested functions and modifier blocks in the linearity checker", "check_cfg_linearity with borrowed parameters whose exit is unreachable (live_default) and struct places split across blocks"]
 
 
 def world(e, it, flags):
@@ -303,3 +313,155 @@ def bounded(chk, i):
     if w:
         o.replay.update({"script": ORACLE + REPLAY_ONE, "input": {"sig": w["sig"], "prog": w["prog"]}})
     chk.record(f"bounded[{i}/{NCH}]:both-verdicts-occur", 10 <= res["reference_accepts"] <= res["evaluations"] - 10, f"{res['reference_accepts']} of {res['evaluations']} accepted by the reference", kind="reachability")
+
+
+# ------------------------------------------------------------------------------ L6
+def l6(chk):
+    e = mk_engine(chk)
+    e.func_info(LC, "check_cfg_linearity")
+    m = e.module(LC)
+    install_errors(e)
+    for n in ("BorrowSubPlaceUsedError",):
+        def mk(it2, a, k, n=n):
+            o = SObj(ClassVal("Diag", builtin=True), {"kind": n, "args": tuple(a)})
+            o.fields["add_sub_diagnostic"] = Builtin("add_sub_diagnostic", lambda *x: None)
+            return o
+        e.models[f"{ERR}:{n}"] = mk
+    for sub in ("AlreadyUsedError.PrevUse", "AlreadyUsedError.MakeCopy", "PlaceNotUsedError.Branch", "PlaceNotUsedError.Fix", "BorrowSubPlaceUsedError.PrevUse", "BorrowSubPlaceUsedError.Fix"):
+        e.models[f"{ERR}:{sub}"] = lambda it2, a, k: "NOTE"
+    e.models[f"{LC}:has_explicit_copy"] = lambda it2, a, k: False
+    co, do, cn, dn = z3.Bools("copyable_old droppable_old copyable_new droppable_new")
+    n_sc = 0
+    for k in (1, 2):
+        for liveS in itertools.product((False, True), repeat=k):
+            for bound in ("outer", "here", "rebound"):
+                for uo in ((False, True) if bound != "here" else (False,)):
+                    for uh in ((False, True) if bound != "outer" else (False,)):
+                        for extra in (False, True):
+                            if extra and all(liveS):
+                                continue
+                            sc = dict(k=k, liveS=liveS, bound=bound, uo=uo, uh=uh, extra=extra)
+                            cross_block_case(chk, e, m, sc, (co, do, cn, dn))
+                            n_sc += 1
+    chk.record("check_cfg_linearity:cases-explored", n_sc >= 80, str(n_sc), kind="reachability")
+    chk.use_engine(e)
+
+
+def cross_block_case(chk, e, m, sc, syms):
+    co, do, cn, dn = syms
+    k, liveS, bound, uo, uh, extra = sc["k"], sc["liveS"], sc["bound"], sc["uo"], sc["uh"], sc["extra"]
+    # what the liveness analysis (C09) yields for these uses: x is live into A iff A uses the incoming
+    # value, or lets it through (not rebound) to a successor that needs it
+    liveA = bound != "here" and (uo or (bound == "outer" and any(liveS)))
+
+    def t(it):
+        w = world(e, it, {0: (SBool(co), SBool(do)), 1: (SBool(cn), SBool(dn))})
+        Sc = it.lookup_global(m, "Scope")
+        UK = it.lookup_global(m, "UseKind")
+        mv = it.getattr(UK, "MOVE")
+        T_old, T_new = w["leaf"](0), w["leaf"](1)
+        P_old = mk_var(w, "x", T_old, defined="DEF-OLD")
+        P_new = mk_var(w, "x", T_new, defined="DEF-NEW")
+        xid = it.getattr(P_old, "id")
+        out_place = P_old if bound == "outer" else P_new
+        BBc = it.lookup_global(e.module(CHKM), "CheckedBB")
+        names = ["entry", "A"] + [f"S{j}" for j in range(k)] + ["exit"]
+        bbs = {n_: SObj(BBc, {"idx": i, "name": n_, "statements": [], "branch_pred": None, "reachable": True, "predecessors": [], "successors": []}) for i, n_ in enumerate(names)}
+        bbs["entry"].fields["successors"] = [bbs["A"]]
+        bbs["A"].fields["successors"] = [bbs[f"S{j}"] for j in range(k)]
+        bbs["A"].fields["branch_pred"] = "PRED" if k == 2 else None
+        for j in range(k):
+            bbs[f"S{j}"].fields["successors"] = [bbs["exit"]]
+        for n_, b in bbs.items():
+            b.fields["sig"] = SObj(ClassVal("Sig", builtin=True), {"input_row": [], "output_rows": [f"ORIG-{n_}-{j}" for j in range(len(b.fields["successors"]))]})
+            for s_ in b.fields["successors"]:
+                s_.fields["predecessors"].append(b)
+        scopes = {}
+        # entry: binds the incoming value (when there is one), never uses it
+        scopes["entry"] = it.call(Sc, [], {})
+        if bound != "here":
+            it.call_method(scopes["entry"], "assign", [P_old])
+        # A
+        inA = it.call(Sc, [], {})
+        if bound != "here":
+            it.call_method(inA, "assign", [P_old])
+        scA = it.call(Sc, [inA], {})
+        if uo:
+            it.call_method(scA, "use", [xid, "USE-A-OUTER", mv])
+        if bound != "outer":
+            it.call_method(scA, "assign", [P_new])
+            if uh:
+                it.call_method(scA, "use", [xid, "USE-A-HERE", mv])
+        scopes["A"] = scA
+        # successors: use the value they get (when live), or merely have it in scope (extra)
+        for j in range(k):
+            inS = it.call(Sc, [], {})
+            scS = it.call(Sc, [inS], {})
+            if liveS[j] or extra:
+                it.call_method(inS, "assign", [out_place])
+            if liveS[j]:
+                it.call_method(scS, "use", [xid, f"USE-S{j}", mv])
+            scopes[f"S{j}"] = scS
+        scopes["exit"] = it.call(Sc, [it.call(Sc, [], {})], {})
+        live = {bbs["entry"]: {}, bbs["A"]: ({xid: bbs["A"] if uo else bbs[[f"S{j}" for j in range(k) if liveS[j]][0]]} if liveA else {}), bbs["exit"]: {}}
+        for j in range(k):
+            live[bbs[f"S{j}"]] = {xid: bbs[f"S{j}"]} if liveS[j] else {}
+        by_bb = {id(b): n_ for n_, b in bbs.items()}
+        e.models[f"{LC}:BBLinearityChecker"] = lambda it2, a, k_: SObj(ClassVal("BBLC", builtin=True), {"check": Builtin("check", lambda bb, **kw: scopes[by_bb[id(bb)]])})
+        e.models["guppylang_internals.cfg.analysis:LivenessAnalysis"] = lambda it2, a, k_: SObj(ClassVal("LA", builtin=True), {"run": Builtin("run", lambda bbs_: live)})
+        cfg = SObj(ClassVal("CheckedCFG", builtin=True), {"bbs": list(bbs.values()), "entry_bb": bbs["entry"], "exit_bb": bbs["exit"], "input_tys": [], "output_ty": "RET",
+                                                          "live_before": {b: {} for b in bbs.values()}, "ass_before": {b: set() for b in bbs.values()}, "maybe_ass_before": {b: set() for b in bbs.values()}, "unitary_flags": "FLAGS"})
+        r = it.call(it.lookup_global(m, "check_cfg_linearity"), [cfg, "fname", "GLOBALS"], {})
+        return r, P_old, P_new, names
+    paths = e.explore(t)
+
+    # specification (path reading of the property, per block): value v of x leaving block b
+    T, F = z3.BoolVal(True), z3.BoolVal(False)
+    b_ = lambda v: T if v else F   # noqa: E731
+    cases = []      # (condition, error kind, marker) in the order blocks are visited
+    if bound != "here":
+        # entry holds the old value, does not consume it; its only successor A needs it iff liveA
+        cases.append((z3.And(z3.Not(do), b_(not liveA)), "PlaceNotUsedError", "DEF-OLD"))
+    c_out, d_out = (co, do) if bound == "outer" else (cn, dn)
+    consumed = uo if bound == "outer" else uh
+    cases.append((z3.And(b_(any(liveS)), z3.Not(c_out), b_(consumed)), "AlreadyUsedError", None))
+    relevant = liveA if bound == "outer" else True
+    cases.append((z3.And(b_(relevant), z3.Not(d_out), b_(not consumed), b_(not all(liveS))), "PlaceNotUsedError", "DEF-OLD" if bound == "outer" else "DEF-NEW"))
+
+    def post(p):
+        if p.kind == "raise":
+            kind = raised_kind(p)
+            err = p.value.fields.get("error")
+            alts = [z3.And(cond, *[z3.Not(c) for c, _, _ in cases[:i]]) for i, (cond, kd, marker) in enumerate(cases)
+                    if kd == kind and (marker is None or (err.fields["args"] and err.fields["args"][0] == marker))]
+            return z3.Or(*alts) if alts else F
+        if p.kind != "return":
+            return F
+        r, P_old, P_new, names = p.value
+        out_place = P_old if bound == "outer" else P_new
+        by = {b.fields["idx"]: b for b in r.fields["bbs"]}
+        A = by[1]
+        ok = [b.fields["idx"] for b in r.fields["bbs"]] == list(range(len(names)))
+        ok = ok and list(A.fields["sig"].fields["input_row"]) == ([P_old] if liveA else [])
+        rows = A.fields["sig"].fields["output_rows"]
+        ok = ok and len(rows) == k and all(list(rows[j]) == ([out_place] if liveS[j] else []) for j in range(k))
+        ok = ok and all(all(x is P for x, P in zip(row, [out_place])) for row in rows)
+        ok = ok and [s_.fields["idx"] for s_ in A.fields["successors"]] == [2 + j for j in range(k)] and [s_.fields["idx"] for s_ in A.fields["predecessors"]] == [0]
+        return z3.And(b_(ok), *[z3.Not(c) for c, _, _ in cases])
+    tag = f"succs={k},live-into={''.join('1' if x else '0' for x in liveS)},{bound},used-before-binding={int(uo)},used-after={int(uh)}" + (",in-scope-not-live" if extra else "")
+    chk.prove_paths(f"check_cfg_linearity[{tag}]:AlreadyUsed<=>consumed-here/\\not-copyable/\\live-later;NotUsed<=>alive-here/\\not-droppable/\\not-consumed/\\not-live-on-every-branch;else-rows=live-places", paths, post,
+                    func=f"{LC}:check_cfg_linearity", replay=lambda m_: {"script": ORACLE + REPLAY_FAMILY, "input": {}})
+
+
+REPLAY_FAMILY = r'''
+progs = fixed_family()
+bad = None; n = 0
+for off in range(0, len(progs), 100):
+    batch = progs[off:off + 100]
+    for (sig, prog, want), (got, info) in zip(batch, check_all(batch)):
+        n += 1
+        if got != want and bad is None:
+            bad = {"source": source(0, sig, prog), "reference": want, "check": got, "info": info}
+    if bad: break
+print(json.dumps({"violates": bad is not None, "evaluations": n, "witness": bad}))
+'''
